@@ -1,7 +1,7 @@
 import inspect
 import typing
 
-from .deferred import Deferred, SizedDeferred, wait
+from .deferred import Deferred, SizedDeferred, DeferredCycle, wait
 from . import operators
 from . import reports
 from .types import CodeBlock
@@ -24,8 +24,20 @@ def describe_int(value):
     return f"a {value.bit_length()}-bit number"
 
 
+def wait_for(arg_token, value):
+    """wait(value), reporting a value that (indirectly) depends on itself at the token that needs it"""
+    try:
+        return wait(value)
+    except DeferredCycle:
+        reports.error(
+            "recursive-definition",
+            (arg_token.ctx_start, arg_token.ctx_end, "This value depends on itself and thus cannot be determined.\nCheck the symbols it mentions for definitions that refer to each other, and sizes that depend on labels placed after them.")
+        )
+        raise reports.RecoverableError("Cyclic definition") from None
+
+
 def get_as_int(state, what, token, arg_token, bitness, unsigned, default=None):
-    value = wait(arg_token.resolve(state))
+    value = wait_for(arg_token, arg_token.resolve(state))
 
     if not isinstance(value, int):
         reports.error(
@@ -72,7 +84,7 @@ def get_as_int(state, what, token, arg_token, bitness, unsigned, default=None):
 
 
 def get_as_str(state, what, token, arg_token):
-    value = wait(arg_token.resolve(state))
+    value = wait_for(arg_token, arg_token.resolve(state))
     if isinstance(value, str):
         return value
     else:
